@@ -429,6 +429,9 @@ fn body_of(code: u64) -> RequestBody {
         1 => RequestBody::Ping { enr_seq: 1 },
         2 => RequestBody::FindNode { distances: vec![0] },
         3 => RequestBody::FindNode { distances: vec![256] },
+        // (legal lists nobody's own lookups produce: a distance twice, out of order)
+        5 => RequestBody::FindNode { distances: vec![17, 17] },
+        6 => RequestBody::FindNode { distances: vec![256, 255, 256, 0] },
         _ => RequestBody::Talk { protocol: b"p".to_vec(), request: b"x".to_vec() },
     }
 }
@@ -438,6 +441,8 @@ fn code_of(b: &RequestBody) -> u64 {
         RequestBody::Ping { enr_seq: 1 } => 1,
         RequestBody::FindNode { distances } if distances == &vec![0u64] => 2,
         RequestBody::FindNode { distances } if distances == &vec![256u64] => 3,
+        RequestBody::FindNode { distances } if distances == &vec![17u64, 17] => 5,
+        RequestBody::FindNode { distances } if distances == &vec![256u64, 255, 256, 0] => 6,
         RequestBody::Talk { .. } => 4,
         _ => 0,
     }
@@ -1610,7 +1615,7 @@ impl HandlerRunner {
                 let Some((na, req)) = self.nodes[xi].requests.get(r).cloned() else { return self.finish(None, None, 1, out, stats) };
                 let own = self.nodes[xi].enr.clone();
                 let kind: &str = if *kind == "auto" {
-                    match code_of(&req.body) { 2 => "nodes1", 3 => "nodes0", 4 => "talk", _ => "pong" }
+                    match code_of(&req.body) { 2 => "nodes1", 3 | 5 | 6 => "nodes0", 4 => "talk", _ => "pong" }
                 } else { kind };
                 let body = match kind {
                     "pong" => ResponseBody::Pong { enr_seq: 1, ip: "10.0.0.1".parse().unwrap(), port: std::num::NonZeroU16::new(9000).unwrap() },
@@ -1694,7 +1699,7 @@ impl HandlerRunner {
                 let mut rids = Vec::new();
                 self.settle();
                 for (na, req) in &todo {
-                    let body = match code_of(&req.body) { 2 => ResponseBody::Nodes { total: 1, nodes: vec![self.nodes[xi].enr.clone()] }, 3 => ResponseBody::Nodes { total: 1, nodes: vec![] }, 4 => ResponseBody::Talk { response: b"y".to_vec() }, _ => ResponseBody::Pong { enr_seq: 1, ip: "10.0.0.1".parse().unwrap(), port: std::num::NonZeroU16::new(9000).unwrap() } };
+                    let body = match code_of(&req.body) { 2 => ResponseBody::Nodes { total: 1, nodes: vec![self.nodes[xi].enr.clone()] }, 3 | 5 | 6 => ResponseBody::Nodes { total: 1, nodes: vec![] }, 4 => ResponseBody::Talk { response: b"y".to_vec() }, _ => ResponseBody::Pong { enr_seq: 1, ip: "10.0.0.1".parse().unwrap(), port: std::num::NonZeroU16::new(9000).unwrap() } };
                     let resp = Response { id: req.id.clone(), body };
                     let rid = self.name_rid(req.id.as_bytes(), 0);
                     let rb = self.rb_term(&resp.body);
@@ -3021,7 +3026,7 @@ pub fn gen_case(rng: &mut Rng, tier: &str, profile: &str, stats: &mut Stats) -> 
                 let x = rng.range(1, n);
                 // (rarely a node is asked to talk to itself: refused at once, nothing on the wire)
                 let y = if rng.chance(1, 40) { x } else { other(rng, x) };
-                let body = if profile == "C20" && rng.chance(2, 3) { 4 } else { rng.range(1, 4) };
+                let body = if profile == "C20" && rng.chance(2, 3) { 4 } else if rng.chance(1, 6) { rng.range(5, 6) } else { rng.range(1, 4) };
                 ops.push(format!("hreq {} {} {} {} {}", x, y, if rng.chance(3, 4) { "enr" } else { "raw" }, rid, body));
                 rid += 1;
                 if y != x { emitted += 1; }
